@@ -6,6 +6,34 @@ import os
 HERE = os.path.dirname(os.path.dirname(os.path.abspath(__file__)))
 
 CLAIMS = {
+    "C19": dict(
+        text="Static check that the bandit's object graph is plain data: no field store (AST over all classes of "
+             "the graph, and values on the abstract traces of all 55 configurations) holds a lambda, generator "
+             "object, joblib pool, lock, thread or handle; every defaultdict factory is a module-level callable or "
+             "a partial of one with constant arguments; no class of the graph customises copying/pickling or "
+             "declares __slots__; no store reaches a module-global or class-level object and no id() is used, so "
+             "no state lives outside the graph. Decides that nothing in the graph can fail to round-trip or alias "
+             "state outside it; exact round-trip of numpy generators / sklearn estimators / partial is trusted.",
+        note="Trusted: numpy Generator, sklearn estimators, functools.partial, defaultdict pickle and deepcopy "
+             "exactly; binarizers are picklable module-level functions (the property's restriction); cross-version "
+             "pickles not decided.",
+        technique="AST rule set over field stores and class definitions + ownership (GLOBAL region) facts from "
+                  "abstract-interpretation traces",
+        ref="DESIGN.md section 3, C19"),
+    "C20": dict(
+        text="Static parametricity (label opacity) by taint tracking in the abstract interpreter: arm labels are "
+             "tagged at their sources and the tag flows through copies, constructors, np.unique/np.array/tolist, "
+             "iteration and key selection; on the traces of MAB.__init__ and of all public entry points of all 55 "
+             "configurations a label is only compared for equality, used as key/subscript, tested for membership, "
+             "stored, zipped or passed on - any ordering comparison, arithmetic, sorted/min/max/sort/argsort "
+             "without a value-mapping key=, hash or set iteration over labels is a violation; joint indexing of "
+             "decisions/rewards/contexts by one selector and pairing of (decision, reward) in the binarizer. "
+             "Decides that outputs depend on labels only through equality (renaming arms renames outputs). The "
+             "row-order and reward shift/scale laws are algebra over run-time numbers and are NOT decided.",
+        note="Trusted: numpy elementwise == on label arrays is label equality; externals table for label flow. "
+             "Not decided: invariance of floating-point sums to row order, reward shift/scale laws.",
+        technique="taint (label) tracking in the abstract interpreter with operation events + AST selector rules",
+        ref="DESIGN.md section 3, C20"),
     "C11": dict(
         text="Static writer/reader agreement for the LSH tables: writer and reader hash with the same function, the "
              "same table_to_plane[k] and the same bucket table over the same key set; on the abstract traces of "
